@@ -93,10 +93,17 @@ fn main() {
         let secs = std::env::var("VERIF_BLOCK_SECS").ok().and_then(|v| v.parse().ok()).unwrap_or(20u64);
         vh::watch::start(secs, move |v| {
             let owns = matches!(property.as_str(), "C03" | "C14");
-            let (oracle, message) = if property == "C14" {
-                ("broker-lost", format!("the routing core halted: router step {} has been blocked (sleeping, no CPU time consumed) for {} s with the well-behaved pair connected", v.kind, v.blocked_for_s))
+            let how = if v.spinning {
+                format!("has consumed {} s of CPU time without returning (it spins)", v.blocked_for_s)
             } else {
-                ("router-step-blocked", format!("the routing core halted: router step {} has been blocked (sleeping, no CPU time consumed) for {} s", v.kind, v.blocked_for_s))
+                format!("has been blocked (sleeping, no CPU time consumed) for {} s", v.blocked_for_s)
+            };
+            let (oracle, message) = if property == "C14" {
+                ("broker-lost", format!("the routing core halted: router step {} {how} with the well-behaved pair connected", v.kind))
+            } else if v.spinning {
+                ("router-step-spinning", format!("the routing core halted: router step {} {how}", v.kind))
+            } else {
+                ("router-step-blocked", format!("the routing core halted: router step {} {how}", v.kind))
             };
             let doc = vh::watch::evidence(&property, tier_s, seed, level, start.elapsed().as_secs_f64(), if owns { 1 } else { 0 }, &v);
             if let Some(dir) = std::path::Path::new(&evidence).parent() {
@@ -107,14 +114,14 @@ fn main() {
                 let dir = if replaying { "/verif/target" } else { "/verif/replays" };
                 std::fs::create_dir_all(dir).ok();
                 let path = format!("{dir}/{}{check}-{seed}-halt.json", if replaying { "replayed-" } else { "" });
-                let rec = serde_json::json!({"property": property, "oracle": oracle, "message": message, "facts": {"site": "router-step-blocked", "step": v.kind}});
+                let rec = serde_json::json!({"property": property, "oracle": oracle, "message": message, "facts": {"site": if v.spinning { "router-step-spinning" } else { "router-step-blocked" }, "step": v.kind}});
                 let file = serde_json::json!({"check": check, "property": property, "seed": seed, "tier": tier_s, "message": message, "record": rec, "replay": v.replay});
                 std::fs::write(&path, serde_json::to_string_pretty(&file).unwrap()).ok();
                 println!("  violated: [{oracle}] {message}");
                 println!("VIOLATION property={property} replay={path}");
                 std::process::exit(1);
             }
-            println!("INCONCLUSIVE property={property} reason=a router step blocked for good (the routing core halted: C03's concern); this check cannot continue");
+            println!("INCONCLUSIVE property={property} reason=a router step blocked or spins for good (the routing core halted: C03's concern); this check cannot continue");
             std::process::exit(2);
         });
     }
